@@ -445,6 +445,9 @@ impl Runtime {
                     if has_indirect_errors && self.pc < self.entry_address {
                         self.state = State::Stopped;
                         self.cont = State::Stopped;
+                        // What the refused direct line pushed (the return address
+                        // of its GOSUB) points into direct code that is gone.
+                        self.stack.clear();
                         return Ok(Event::Errors(Arc::clone(&self.listing.indirect_errors)));
                     }
                 }
